@@ -82,7 +82,7 @@ def run(R):
         def src_pad_addr(b):
             ta = Taint(b)
             return ta.closure(call_results([PAD + "::address", PAD + "::owner"])(b))
-        R.gate("C15.vault", gv, RetSink("Ok"),
+        R.gate("C15.vault", gv, RetSink("Ok", computed=True),
                [[CallGuard([PAD + "::is_valid"], ("true",), "pad.is_valid()")],
                 [CmpGuard(src_pad_addr, src_req, "Eq", "pad.address() == requested address", close=False)]],
                descr="get_vault_from_network returns Ok(pad) only for a validly signed pad owned by the requested key")
